@@ -20,6 +20,17 @@ SEQ_REQUIRED = SEQ_OPS + ["panic:set", "panic:get", "panic:del", "exists:true", 
                           "probe:exists", "probe:absent-leaf", "probe:get-panics", "probe:get-map"]
 
 
+MAX_REPLAYS_PER_SIGNATURE = 3
+
+
+def violation(ctx, sig, what, obj):
+    """ctx.violation writes one replay file per call: keep a few per signature (a broken tree yields thousands)."""
+    seen = ctx.__dict__.setdefault("_x01_seen", {})
+    seen[sig] = seen.get(sig, 0) + 1
+    if seen[sig] <= MAX_REPLAYS_PER_SIGNATURE:
+        ctx.violation(sig, what, obj)
+
+
 def tla_set(xs):
     return "{" + ",".join('"%s"' % x for x in xs) + "}"
 
@@ -237,7 +248,7 @@ def report_seq(ctx, hists, findings):
             f["pred"], f["i"], h.get("tag"), json.dumps(h["steps"][f["i"]]) if h["steps"] else "new map", json.dumps(f["res"]))
         hh = dict(h)
         hh["steps"] = h["steps"][:f["i"] + 1]
-        ctx.violation(sig, what, {"family": "syncseq", "history": hh, "expected": f["exp"]})
+        violation(ctx, sig, what, {"family": "syncseq", "history": hh, "expected": f["exp"]})
 
 
 # --------------------------------------------------------------------------
@@ -336,7 +347,7 @@ def report_conc(ctx, cases, bad, rows_by_case):
         if crash:
             site = "reader+writer"
         sig = "%s/%s/%s" % (pred, c["kind"], site)
-        ctx.violation(sig, "%s: no linearization of a %s history on kind %s (answer not explained: %s): %s" % (
+        violation(ctx, sig, "%s: no linearization of a %s history on kind %s (answer not explained: %s): %s" % (
             pred, c.get("tag"), c["kind"], json.dumps(stuck["res"]) if stuck else "-",
             [(l["k"], l["c"], l["op"], l["p"], l["res"]["st"], l["res"]["v"], [(e["p"], e["v"]) for e in l["res"]["sub"]])
              for l in lines if l["k"] != "reset"][:10]),
@@ -480,8 +491,9 @@ def run(ctx):
     ctx.extra["reads_overlapped_by_a_completed_write"] = overlap_stats(rows) + overlap_stats(rows_s) + overlap_stats(rows_r)
     races = race_reports(racelog)
     ctx.extra["race_reports_in_polyform"] = len(races)
+    ctx.extra["violations_by_signature"] = dict(ctx.__dict__.get("_x01_seen", {}))
     for sig, txt in races:
-        ctx.violation(sig, "Go race detector report involving polyform", {"family": "syncconc", "race": txt})
+        violation(ctx, sig, "Go race detector report involving polyform", {"family": "syncconc", "race": txt})
 
     if not quick:
         selftest(ctx, vh, hists, directed)
